@@ -402,7 +402,9 @@ func catalogPods() []PodCase {
 		l := l
 		add(l.name+".caps.drop=[]nonNil", func(p *corev1.Pod) { l.sc(p).Capabilities.Drop = []corev1.Capability{} })
 		add(l.name+".caps.add=[]nonNil", func(p *corev1.Pod) { l.sc(p).Capabilities.Add = []corev1.Capability{} })
-		add(l.name+".caps={[],[]}", func(p *corev1.Pod) { l.sc(p).Capabilities = &corev1.Capabilities{Add: []corev1.Capability{}, Drop: []corev1.Capability{}} })
+		add(l.name+".caps={[],[]}", func(p *corev1.Pod) {
+			l.sc(p).Capabilities = &corev1.Capabilities{Add: []corev1.Capability{}, Drop: []corev1.Capability{}}
+		})
 		add(l.name+".ports=[]nonNil", func(p *corev1.Pod) { *l.ports(p) = []corev1.ContainerPort{} })
 	}
 	add("pod.sysctls=[]nonNil", func(p *corev1.Pod) { p.Spec.SecurityContext.Sysctls = []corev1.Sysctl{} })
